@@ -1,7 +1,6 @@
 package files
 
 import (
-	"fmt"
 	"os"
 	"strings"
 
@@ -48,7 +47,6 @@ func ParsePath(path string) *Path {
 			}
 		}
 	}
-	fmt.Printf("%+v\n", entries)
 	return &Path{entries}
 }
 
